@@ -366,8 +366,22 @@ def reps(chk, P):
         nv_false = known_edges(f, lambda c_: False, isnv)
         is_comp = lambda q: q["k"] == "call" and str(q.get("fn", "")).endswith("::computeValues") and bool(call_args(q)) and call_args(q)[0] == ["lit", "true"]
         sig = re.sub(r"typename CNT<T>::TReal|EigenRep<[^:]*>::RType|RType", "R", "(" + ",".join(p_[1] for p_ in f.d["params"]) + ")").replace("SimTK::", "").replace("std::", "")
+        def ensures(q, depth=2):
+            """call q computes the vectors whenever needVectors is set: computeValues(true) itself, or a same-class helper in which no path to the exit avoids such a call
+            except through an edge on which needVectors is known false"""
+            if is_comp(q):
+                return True
+            if depth <= 0 or q["k"] != "call" or not q.get("fid"):
+                return False
+            for g in P.by_id.get(q["fid"], []):
+                if g.cls != f.cls or g is f or not g.blocks:
+                    continue
+                gf = known_edges(g, lambda c_: False, isnv)
+                if g.path_exists(None, "exit", lambda z: ensures(z, depth - 1), avoid_edges=gf, lift=0) is None:
+                    return True
+            return False
         for b, i, e in cps[:1]:
-            p_ = f.path_exists(None, lambda q, e=e: q is e, is_comp, avoid_edges=nv_false, lift=0)
+            p_ = f.path_exists(None, lambda q, e=e: q is e, ensures, avoid_edges=nv_false, lift=0)
             chk.judge(p_ is None, "NEEDFLAG", "%s%s:computes-vectors-when-needVectors" % (f.name.split("::")[-1], sig), f.loc,
                       "eigenvectors are handed out without computeValues(true) on a path where needVectors may still be true: after a values-only query the vectors were never computed", p_)
     chk.shape(getters >= 4, "NEEDFLAG", "vector-getters>=4", "", "%d getters call copyVectors" % getters)
